@@ -142,6 +142,20 @@ pub(crate) fn handle_submit(
 ) -> ToClientMessage {
     log_submit_request(&message);
 
+    if let JobTaskDescription::Graph {
+        tasks,
+        resource_rqs,
+    } = &message.submit_desc.task_desc
+        && let Some(task) = tasks
+            .iter()
+            .find(|task| task.resource_rq_id.as_usize() >= resource_rqs.len())
+    {
+        return ToClientMessage::Error(format!(
+            "Task {} refers to an undefined resource request",
+            task.id
+        ));
+    }
+
     let mut state = state_ref.get_mut();
     if let Some(err) = validate_submit(
         message.job_id.and_then(|job_id| state.get_job(job_id)),
